@@ -247,6 +247,12 @@ fn check(c: &Case, ctx: &Ctx) -> Outcome {
             // one of >= 4 samples is missing at the indels behind the cut
             args.extend_from_slice(&["-m", "0.4"]);
         }
+        // every other run writes over the (longer) outputs of an earlier run with the same prefix
+        if (c.lead as usize + c.n_samples) % 2 == 0 {
+            for sfx in ["_indels.vcf", "_snps.fas", "_snps.vcf", "_pseudo_genomes.fas"] {
+                crate::cli::plant_stale_output(&dir.join(format!("out{sfx}")));
+            }
+        }
         let o = run_ska(ctx, &dir, &args);
         must_ok(&o, "ska lo on isolated indels")?;
         let txt = std::fs::read_to_string(dir.join("out_indels.vcf")).map_err(|e| Outcome::Fail(format!("out_indels.vcf: {e}")))?;
